@@ -928,6 +928,11 @@ func (syncEngine) Generate(rng *rand.Rand, tier string) []core.Case {
 				}
 				sort.Ints(ids)
 				g.emit("raw k=%s id=%d", []string{"c", "d"}[rng.Intn(2)], ids[rng.Intn(len(ids))])
+			} else if rng.Intn(6) == 0 {
+				// gapped connect: a block two above the tip whose predecessor height the wallet has never seen
+				a := g.newBlock(g.tip(), nil)
+				b := g.newBlock(a, nil)
+				g.emit("raw k=c id=%d", b)
 			} else if rng.Intn(5) == 0 {
 				// a declared but never connected side block, target for raw ops
 				g.newBlock(g.best[rng.Intn(len(g.best))], nil)
